@@ -78,6 +78,12 @@ CHECKS = {
         text="Generated programs are cut into 2-4 modules with the induced pub/import declarations and compiled through the multi-module path in all (or 6 random) file orders: each must be accepted and print what the reference interpreter prints; probes reference public, private and transitively imported functions/constants/structures from outside (E401/E402/E405 expected for the invisible ones); a generated module is compiled among 1-3 unrelated modules sharing builtins, private names and string literals and must behave as when compiled alone, with valid linked IR.",
         note="The splitter adds the imports that interfaces of imported public items need (imports are not re-exported).",
         design="5 C12"),
+    "C13": dict(
+        category="exploration",
+        technique="runtime monitor: catalogue / location / rendering assertions on every diagnostic (primary location exposed by hook H1) and a determinism monitor comparing three worker processes",
+        text="Failing and accepted inputs (corpus plain / CRLF / multi-byte prefix, injected lexical faults with a known lexeme, mutants, generated programs, import closures with faults in imported modules, a six-import module in random file orders, token soup) are compiled in three separate worker processes: every code must have a heading in docs/errors.md, every primary location must lie inside the named input and start on the reported line, injected lexemes must be covered by a diagnostic of their documented code, every diagnostic must render in 4 colour/charset configurations, and verdict, ordered diagnostics and IR text must be identical across the processes.",
+        note="'Covers the offending text' is decidable only for injected lexical faults (injected into files that compile cleanly so nothing can mask them).",
+        design="5 C13"),
 }
 
 
